@@ -74,8 +74,15 @@ func (e *DefaultExecutor) Execute(ctx context.Context, job *Job) ([]byte, error)
 		return nil, err
 	}
 
-	env := e.env
-	env = append(env, utils.ConvertEnv(utils.ConvertToMapOfStrings(job.Env.Map()))...)
+	// entries of the job's environment take the place of inherited entries with the same name
+	jobEnv := utils.ConvertToMapOfStrings(job.Env.Map())
+	env := make([]string, 0, len(e.env)+len(jobEnv))
+	for _, kv := range e.env {
+		if _, overridden := jobEnv[strings.SplitN(kv, "=", 2)[0]]; !overridden {
+			env = append(env, kv)
+		}
+	}
+	env = append(env, utils.ConvertEnv(jobEnv)...)
 
 	if job.Dir == "" {
 		job.Dir = e.dir
